@@ -39,6 +39,21 @@ fn set_part(p: &mut [String], i: usize, v: String) {
     }
 }
 
+
+/// The form media type the way clients write it: bare, with a UTF-8 charset, with optional white space before the `;`
+/// (RFC 9110 §5.6.6) — all of them forms.
+fn form_type_spelling(r: &mut Rng) -> Vec<u8> {
+    r.pick_bytes(&[
+        FORM,
+        FORM,
+        b"application/x-www-form-urlencoded; charset=utf-8",
+        b"application/x-www-form-urlencoded ; charset=utf-8",
+        b"application/x-www-form-urlencoded ;charset=UTF-8",
+        b"application/x-www-form-urlencoded  ; q=1",
+    ])
+    .to_vec()
+}
+
 pub const INJECTORS: &[Inj] = &[
     Inj {
         name: "path-bad-escape",
@@ -92,7 +107,7 @@ pub const INJECTORS: &[Inj] = &[
                 return false;
             }
             b.ov.body_override = Some(r.pick(&[&b"a=1&b=%zz"[..], b"a=1&b=%zz", b"x=%+f", b"%+5=1&a=2", b"a=%-1"]).to_vec());
-            b.ov.content_type_override = Some(FORM.to_vec());
+            b.ov.content_type_override = Some(form_type_spelling(r));
             true
         },
     },
@@ -104,7 +119,16 @@ pub const INJECTORS: &[Inj] = &[
                 return false;
             }
             let mut ct = FORM.to_vec();
-            let opts: [&[u8]; 6] = [b"; charset=zz-nonexistent", b";charset=ZZ9", b"; x=y; charset=zzz", b";; charset=zz-after-empty", b"; flag; charset=zz-after-valueless", b"; ;charset=zz9"];
+            let opts: [&[u8]; 8] = [
+                b"; charset=zz-nonexistent",
+                b";charset=ZZ9",
+                b"; x=y; charset=zzz",
+                b";; charset=zz-after-empty",
+                b"; flag; charset=zz-after-valueless",
+                b"; ;charset=zz9",
+                b" ; charset=zz-after-blank",
+                b"  ;charset=zz-after-blanks",
+            ];
             let tail: &[u8] = *r.pick(&opts);
             ct.extend_from_slice(tail);
             b.ov.content_type_override = Some(ct);
@@ -123,7 +147,7 @@ pub const INJECTORS: &[Inj] = &[
             }
             b.ov.body_override = Some(r.pick(&[&b"a=\xff\xfe"[..], b"\xc3(=1", b"a=1&\xe2\x82=2", b"\x80"]).to_vec());
             if b.ov.content_type_override.is_none() {
-                b.ov.content_type_override = Some(FORM.to_vec());
+                b.ov.content_type_override = Some(form_type_spelling(r));
             }
             true
         },
